@@ -134,6 +134,48 @@ def fault_sweep(ctx, scs, known):
     return mism, fails, n, distinct, samples
 
 
+def size_limit_runs(ctx):
+    """Writes that are cut short: every handler's dirty sample under a file-size limit below the size of its output (one
+    file after the other, so that the limit hits the temporary file).  The file is left as it was, the failure is
+    reported and counted, no temporary file stays behind; with a limit above the output size the run succeeds."""
+    import samples as smp
+    fails, n = [], 0
+    for name, (data, hs) in smp.per_handler().items():
+        # the fault-free output, for its size
+        t = fh.Tree()
+        try:
+            t.add_file("d/" + name, data, mtime_ns=1_650_000_000_000_000_000)
+            rc, out = fh.run_cli(["--handler", hs[0], t.path("d")], epoch=smp.EPOCH, timeout=60)
+            final = open(t.path("d/" + name), "rb").read()
+        finally:
+            t.remove()
+        if final == data or len(final) < 8:
+            continue
+        for limit in sorted(set([1, len(final) // 2, len(final) - 1])):
+            t = fh.Tree()
+            try:
+                t.add_file("d/" + name, data, mode=0o640, mtime_ns=1_650_000_000_000_000_000)
+                before = fh.snapshot(t.root)
+                rc, out = fh.run_cli(["--handler", hs[0], t.path("d")], epoch=smp.EPOCH, timeout=60, fsize_limit=limit)
+                after = fh.snapshot(t.root)
+                n += 1
+                label = "%s handler, output %d bytes, files limited to %d bytes" % (hs[0], len(final), limit)
+                s = fh.parse_summary(out)
+                a = after.get("d/" + name)
+                if a is None or a["data"] not in (data, final):
+                    fails.append(("short-write-corrupts", "%s: the file is neither as it was nor the complete output (%s bytes)" % (label, "no" if a is None else len(a["data"])), label))
+                elif a["data"] == data and (rc == 0 or s is None or s["errors"] == 0):
+                    fails.append(("short-write-unreported", "%s: the file was left as it was but no error is reported (exit %d, %s)" % (label, rc, s), label))
+                elif a["data"] == final and len(final) > limit:
+                    fails.append(("short-write-corrupts", "%s: a file larger than the limit was produced" % label, label))
+                left = [r for r in after if os.path.basename(r).startswith(".#.")]
+                if left:
+                    fails.append(("short-write-temp-left", "%s: %s left behind" % (label, left), label))
+            finally:
+                t.remove()
+    return fails, n
+
+
 def worker_death(ctx, known):
     """A worker dies: the controller must terminate and report failure."""
     fails = []
@@ -187,6 +229,9 @@ def run(ctx):
     ctx.oblige("correspondence[fs/fault]: class and final state of %d fault-injected runs = model (Helper.run_handler with fault)" % n,
                not mism, "; ".join("%s: %s" % (sc.label(), why) for sc, why in mism[:4]))
     wfails, wres = worker_death(ctx, known)
+    sfails, sn = size_limit_runs(ctx)
+    wfails = list(wfails) + sfails
+    ctx.coverage["size_limited_runs"] = sn
     seen = set()
     for sc, kind, msg, inj in fails:
         if kind in seen:
